@@ -257,6 +257,28 @@ impl CrashState {
         img
     }
 
+    /// Power-loss image where `prefix_file`'s pending events persist as a prefix of
+    /// `prefix_len` events (a device that does not reorder writes within that file) and
+    /// every other file's pending events are selected by `keep`.
+    pub fn power_loss_mixed(&self, prefix_file: &str, prefix_len: usize, mut keep: impl FnMut(usize) -> bool) -> Image {
+        let mut img = self.durable.clone();
+        let mut i = 0;
+        for (file, evs) in &self.pending {
+            for (n, k) in evs.iter().enumerate() {
+                let take = if file == prefix_file { n < prefix_len } else { keep(i) };
+                if take {
+                    apply_data(&mut img.files, file, k);
+                }
+                i += 1;
+            }
+        }
+        img
+    }
+
+    pub fn pending_of(&self, file: &str) -> usize {
+        self.pending.get(file).map(|v| v.len()).unwrap_or(0)
+    }
+
     /// Process-death image with a torn prefix of `ev` (a `Write`) applied on top.
     pub fn torn(&self, ev: &Ev, prefix: usize) -> Image {
         let mut img = self.live.clone();
